@@ -555,6 +555,11 @@ OFFS = [0.0] + gen.DELTAS + [-d for d in gen.DELTAS]
 
 
 def near(rng, centres):
+    if rng.random() < 0.5:
+        # offsets drawn continuously, concentrated where a singular-branch approximation costs about the stated 1e-6
+        # (an offset d in the singular branch costs ~2d): a threshold moved from 7e-8 to 7e-7 is wrong only between 5e-7 and 7e-7
+        d = gen.logu(rng, 1e-7, 5e-6) if rng.random() < 0.6 else gen.logu(rng, 1e-12, 1e-1)
+        return float(centres[rng.integers(len(centres))] + gen.sign(rng) * d)
     return float(centres[rng.integers(len(centres))] + OFFS[rng.integers(len(OFFS))])
 
 
